@@ -29,6 +29,10 @@ type c03mon struct {
 	depth    int
 	ended    bool
 	alphabet []string
+	// sleep cycles: the gateway pings the broker on its own while the client sleeps; the answers to its own
+	// pings are its own, every other PINGRESP of the broker belongs to an active client
+	asleep bool
+	own    int // the gateway's own PINGREQs not yet answered by the broker
 }
 
 func (m *c03mon) resolve(p refsn.Pkt) (string, string, bool) {
@@ -65,6 +69,14 @@ func (m *c03mon) After(g *gw.GW, ev string, sn []gw.SNOut, mq []gw.MQOut, setup 
 		snOK = append(snOK, o.P)
 	}
 	st := steps(ev)[0]
+	clientPing := st.kind == "C" && st.sn.Type == refsn.PINGREQ && !m.asleep
+	if !clientPing {
+		for _, o := range mq {
+			if o.P.Type == refmqtt.PINGREQ {
+				m.own++
+			}
+		}
+	}
 	expectMQ := func(want string, check func(p refmqtt.Pkt) string) {
 		if len(mq) != 1 {
 			var names []string
@@ -139,6 +151,9 @@ func (m *c03mon) After(g *gw.GW, ev string, sn []gw.SNOut, mq []gw.MQOut, setup 
 				return ""
 			})
 		case refsn.PINGREQ:
+			if m.asleep {
+				break // a wake-up: answered by the gateway itself (C11)
+			}
 			expectMQ("PINGREQ", func(q refmqtt.Pkt) string {
 				if q.Type != refmqtt.PINGREQ {
 					return "differs"
@@ -146,12 +161,18 @@ func (m *c03mon) After(g *gw.GW, ev string, sn []gw.SNOut, mq []gw.MQOut, setup 
 				return ""
 			})
 		case refsn.DISCONNECT:
+			if p.Duration > 0 {
+				m.asleep = true // going to sleep (or prolonging it): nothing is translated
+				break
+			}
 			expectMQ("DISCONNECT", func(q refmqtt.Pkt) string {
 				if q.Type != refmqtt.DISCONNECT {
 					return "differs"
 				}
 				return ""
 			})
+		case refsn.CONNECT:
+			m.asleep = false // a wake-up CONNECT (the specs with sleep cycles connect once in their setup)
 		}
 	case "B":
 		q := st.mq
@@ -163,7 +184,12 @@ func (m *c03mon) After(g *gw.GW, ev string, sn []gw.SNOut, mq []gw.MQOut, setup 
 		case refmqtt.UNSUBACK:
 			expectSN(refsn.UNSUBACK, q.ID)
 		case refmqtt.PINGRESP:
-			expectSN(refsn.PINGRESP, 0)
+			switch {
+			case m.own > 0:
+				m.own-- // the answer to one of the gateway's own pings (the oldest outstanding ping is the gateway's)
+			case !m.asleep:
+				expectSN(refsn.PINGRESP, 0)
+			}
 		case refmqtt.SUBACK:
 			ps, pending := m.subs[q.ID]
 			if !pending {
@@ -212,9 +238,11 @@ func (m *c03mon) Key() string {
 		ks = append(ks, fmt.Sprintf("%d:%v", id, s))
 	}
 	sortStrings(ks)
-	return fmt.Sprintf("subs=%v ended=%t", ks, m.ended)
+	return fmt.Sprintf("subs=%v ended=%t asleep=%t own=%d", ks, m.ended, m.asleep, m.own)
 }
-func (m *c03mon) Class() string { return fmt.Sprintf("pending=%d ended=%t", len(m.subs), m.ended) }
+func (m *c03mon) Class() string {
+	return fmt.Sprintf("pending=%d ended=%t asleep=%t", len(m.subs), m.ended, m.asleep)
+}
 func (m *c03mon) Next(g *gw.GW) []string {
 	if g.Returned {
 		return nil
@@ -269,8 +297,20 @@ func c03specs() []gw.Spec {
 	cfg := gw.DefaultConfig()
 	cfg.Predefined = topics.PredefinedTopics{"*": {1: "p/1"}}
 	alpha := c03alphabet(explore.Tier() == "thorough")
+	// sleep cycles: the broker's answers to the gateway's own pings (sent while the client sleeps) must not eat
+	// the answers to the client's pings once it is active again, and vice versa
+	sleepAlpha := []string{
+		gw.EvC("DISCONNECT(60)", gw.Disconnect(60)),
+		gw.EvC("PINGREQ(wake)", gw.Pingreq("c1")),
+		gw.EvC("CONNECT(wake)", gw.Connect("c1", 4, false, false)),
+		gw.EvC("PINGREQ", gw.Pingreq("")),
+		gw.EvB("PINGRESP", refmqtt.EncPingresp()),
+		gw.EvAdvance(4 * time.Second),
+	}
 	return []gw.Spec{{Name: "c1", Cfg: cfg, Setup: connectSetup("c1", 30), NewMonitor: func() gw.Monitor {
 		return &c03mon{cfg: cfg.Predefined, subs: map[uint16]pendSub{}, alphabet: alpha}
+	}}, {Name: "sleep cycles", Cfg: cfg, Setup: connectSetup("c1", 4), Depth: 7, NewMonitor: func() gw.Monitor {
+		return &c03mon{cfg: cfg.Predefined, subs: map[uint16]pendSub{}, alphabet: sleepAlpha}
 	}}}
 }
 
@@ -336,8 +376,39 @@ func c03e2() []gw.E2Spec {
 			}
 			return nil
 		}}
+	// the client pipelines its requests: the handler works on the next one while the broker's answers to the
+	// previous ones are being translated by the other thread
+	pipeline := gw.E2Spec{Name: "e2:pipelined requests, prompt broker", Cfg: cfg, Setup: connectSetup("c1", 30), Auto: auto,
+		Inject: []string{gw.EvC("SUBSCRIBE(a/b,q1,mid5)", gw.SubscribeName(5, "a/b", 1, false)), gw.EvC("UNSUBSCRIBE(a/b,mid8)", gw.UnsubscribeName(8, "a/b")),
+			gw.EvC("PUBREL(mid9)", gw.Pubrel(9)), gw.EvC("PINGREQ", gw.Pingreq("")), gw.EvC("SUBSCRIBE(a/#,q2,mid6)", gw.SubscribeName(6, "a/#", 2, false))},
+		Check: func(g *gw.GW, sn []gw.SNOut, mq []gw.MQOut) []explore.Violation {
+			got := map[string]int{}
+			var all []string
+			for _, o := range sn {
+				all = append(all, o.String())
+				if o.Err == nil {
+					k := fmt.Sprintf("%s(%d)", o.P.Name(), o.P.MsgID)
+					if o.P.Type == refsn.SUBACK {
+						k += fmt.Sprintf("rc%d,q%d", o.P.RC, o.P.QoS)
+					}
+					got[k]++
+				}
+			}
+			var vs []explore.Violation
+			for _, want := range []string{"SUBACK(5)rc0,q1", "UNSUBACK(8)", "PUBCOMP(9)", "PINGRESP(0)", "SUBACK(6)rc0,q2"} {
+				if got[want] != 1 {
+					vs = append(vs, explore.Violation{Property: "C03", Sig: "pipelined:" + want + fmt.Sprintf(":got=%d", got[want]),
+						Detail: fmt.Sprintf("five pipelined requests, each answered at once by the broker: client got %v, want exactly one %s", all, want)})
+				}
+			}
+			if len(sn) != 5 && len(vs) == 0 {
+				vs = append(vs, explore.Violation{Property: "C03", Sig: "pipelined:extra-datagrams", Detail: fmt.Sprintf("client got %v, want the five answers only", all)})
+			}
+			return vs
+		}}
 	return []gw.E2Spec{
 		reuse,
+		pipeline,
 		mk("SUBSCRIBE(a/b,q1)", gw.SubscribeName(5, "a/b", 1, false), refsn.SUBACK, 5, 1),
 		mk("SUBSCRIBE(a/#,q2)", gw.SubscribeName(6, "a/#", 2, false), refsn.SUBACK, 6, 2),
 		mk("SUBSCRIBE(predef 1,q0)", gw.SubscribeID(7, 1, 1, 0, false), refsn.SUBACK, 7, 0),
@@ -359,9 +430,9 @@ func TestC03(t *testing.T) {
 		depth = 4
 	}
 	gw.BFSCheck(rep, specs, gw.BFSOpts{Test: "TestC03", Depth: depth}, 150, 900)
-	rep.Coverage["rule"] = "BFS over histories of SUBSCRIBE{plain,wildcard x2,predefined known/unknown,short} x QoS{0,1,2} x msg id{1,2} (thorough also DUP), broker SUBACK rc{0,1,2,0x80} x msg id{1,2}, UNSUBSCRIBE (same topic forms), PUBREL, PINGREQ, DISCONNECT, broker PUBREC/PUBCOMP/UNSUBACK/PINGRESP after a connect; per event exactly one translated packet with the same msg id, resolved filter and requested QoS; SUBACK accepted iff broker rc<=2, then granted QoS and assigned topic id"
+	rep.Coverage["rule"] = "BFS over histories of SUBSCRIBE{plain,wildcard x2,predefined known/unknown,short} x QoS{0,1,2} x msg id{1,2} (thorough also DUP), broker SUBACK rc{0,1,2,0x80} x msg id{1,2}, UNSUBSCRIBE (same topic forms), PUBREL, PINGREQ, DISCONNECT, broker PUBREC/PUBCOMP/UNSUBACK/PINGRESP after a connect; plus histories up to depth 7 of sleep cycles (DISCONNECT(60), wake-up PINGREQ, wake-up CONNECT, keep-alive PINGREQ, broker PINGRESP, 4 s passing = one period of the gateway's own pings): the answers to the gateway's own pings are consumed, every other PINGRESP reaches an active client; per event exactly one translated packet with the same msg id, resolved filter and requested QoS; SUBACK accepted iff broker rc<=2, then granted QoS and assigned topic id"
 	explore.RunScenarios(rep, gw.Scenarios(t, c03e2()), explore.ScenarioOpts{Test: "TestC03", QuickBound: 2, ThoroughFrom: 2, ThoroughMax: 4, Unbounded: true,
 		QuickBudget: 60 * time.Second, ThoroughBudge: 5 * time.Minute})
-	rep.Assumptions = []string{"BFS part: default schedule; E2 part: all interleavings within the preemption bound of the handler's threads against a broker that answers at once; no time passes (a SUBACK arriving after the gateway's own RetryDelay bookkeeping expired is not demanded)"}
+	rep.Assumptions = []string{"BFS part: default schedule; E2 part: all interleavings within the preemption bound of the handler's threads against a broker that answers at once, single requests and five pipelined requests (the next request is handled while the previous answers are translated); no time passes (a SUBACK arriving after the gateway's own RetryDelay bookkeeping expired is not demanded)"}
 	rep.Finish()
 }
